@@ -92,9 +92,10 @@ Print Assumptions I_bid128_llround.
 (* END bid128_llround *)
 
 (* BEGIN bid128_fdim *)
-(* bid128_fdim over abstract bid128_quiet_greater / bid128_sub (bound by name).  IF the comparison callee meets the clause
-   proved for it by group G (m_cmp ... 1) and the subtraction callee returns an outcome of m_sub with the status word or-ed,
-   THEN fdim returns an outcome of m_fdim (OpsMisc.v) for all operand words, every mode discriminant and status word:
+From DVI Require Import ImplMul0 ImplMul ImplOrder ImplCmp.
+(* bid128_fdim over the translated bid128_quiet_greater (its theorem V_bid128_quiet_greater is re-proved here with the tactics
+   of ImplCmp.v, as in group G) and an abstract bid128_sub (bound by name).  IF the subtraction callee returns an outcome of
+   m_sub with the status word or-ed, THEN fdim returns an outcome of m_fdim (OpsMisc.v) for all operand words, every mode discriminant and status word:
    NaN operands go to the subtraction (whose NaN outcomes are those of m_fdim: sub_nan), x > y goes to the subtraction,
    otherwise the canonical +0E0 with the status word untouched (the flags of the comparison are discarded). *)
 Lemma nan_test w0 w1 : in_u64 w0 -> in_u64 w1 ->
@@ -108,25 +109,29 @@ Proof.
   unfold m_sub, add_dec. destruct (decode x) as [sx cx qx|sx|sx gx px], (decode y) as [sy cy qy|sy|sy gy py];
     cbn [is_nan orb neg_dec set_sign sign_of]; intros E; try discriminate E; reflexivity.
 Qed.
-Definition spec_gt (f : Z -> Z -> Z -> Z -> Z -> bool * Z) : Prop :=
-  forall x0 x1 y0 y1 st, in_u64 x0 -> in_u64 x1 -> in_u64 y0 -> in_u64 y1 -> in_u32 st ->
-    let '(r, st') := f x0 x1 y0 y1 st in
-    exists fl, m_cmp (pat x0 x1) (pat y0 y1) 1 = [([b2z r], fl)] /\ st' = Z.lor st fl.
+Lemma V_bid128_quiet_greater x0 x1 y0 y1 st : in_u64 x0 -> in_u64 x1 -> in_u64 y0 -> in_u64 y1 -> in_u32 st ->
+  i_bid128_quiet_greater x0 x1 y0 y1 st = cmp_res 1 (pat x0 x1) (pat y0 y1) st.
+Proof.
+  intros Hx0 Hx1 Hy0 Hy1 Hst. unfold i_bid128_quiet_greater.
+  cmp_open x0 x1 y0 y1 st 1. cmp_walk x1 y1. all: cmp_leaf.
+Qed.
 Definition spec_sub (f : Z -> Z -> Z -> Z -> Z -> Z -> Z * Z * Z) : Prop :=
   forall x0 x1 y0 y1 md st, in_u64 x0 -> in_u64 x1 -> in_u64 y0 -> in_u64 y1 -> 0 <= md <= 4 -> in_u32 st ->
     let '(r0, r1, st') := f x0 x1 y0 y1 md st in
     in_u64 r0 /\ in_u64 r1 /\ exists fl, In ([pat r0 r1], fl) (m_sub (md_of md) (pat x0 x1) (pat y0 y1)) /\ st' = Z.lor st fl.
-Arguments i_bid128_fdim {_ _} _ _ _ _ _ _.
-Theorem I_bid128_fdim fgt fsub : spec_gt fgt -> spec_sub fsub ->
+Arguments i_bid128_fdim {_} _ _ _ _ _ _.
+Theorem I_bid128_fdim fsub : spec_sub fsub ->
   forall x0 x1 y0 y1 md st, in_u64 x0 -> in_u64 x1 -> in_u64 y0 -> in_u64 y1 -> 0 <= md <= 4 -> in_u32 st ->
-  let '(r0, r1, st') := i_bid128_fdim (a_bid128_quiet_greater := fgt) (a_bid128_sub := fsub) x0 x1 y0 y1 md st in
+  let '(r0, r1, st') := i_bid128_fdim (a_bid128_sub := fsub) x0 x1 y0 y1 md st in
   in_u64 r0 /\ in_u64 r1 /\ exists fl, In ([pat r0 r1], fl) (m_fdim (md_of md) (pat x0 x1) (pat y0 y1)) /\ st' = Z.lor st fl.
 Proof.
-  intros Sgt Ssub x0 x1 y0 y1 md st Hx0 Hx1 Hy0 Hy1 Hmd Hst.
-  specialize (Sgt x0 x1 y0 y1 st Hx0 Hx1 Hy0 Hy1 Hst). specialize (Ssub x0 x1 y0 y1 md st Hx0 Hx1 Hy0 Hy1 Hmd Hst).
+  intros Ssub x0 x1 y0 y1 md st Hx0 Hx1 Hy0 Hy1 Hmd Hst.
+  pose proof (cmp_res_thm0 1 (pat x0 x1) (pat y0 y1) st (i_bid128_quiet_greater x0 x1 y0 y1 st)
+                (V_bid128_quiet_greater x0 x1 y0 y1 st Hx0 Hx1 Hy0 Hy1 Hst)) as Sgt.
+  specialize (Ssub x0 x1 y0 y1 md st Hx0 Hx1 Hy0 Hy1 Hmd Hst).
   unfold i_bid128_fdim, i_d128_new, m_fdim. cbv zeta.
   rewrite (nan_test x0 x1 Hx0 Hx1), (nan_test y0 y1 Hy0 Hy1).
-  destruct (fgt x0 x1 y0 y1 st) as [r stc]. destruct Sgt as (flc & Ec & _).
+  destruct (i_bid128_quiet_greater x0 x1 y0 y1 st) as [r stc]. destruct Sgt as (flc & Ec & _).
   destruct (fsub x0 x1 y0 y1 md st) as [[s0 s1] sts].
   set (dx := decode (pat x0 x1)) in *. set (dy := decode (pat y0 y1)) in *.
   destruct (is_nan dx || is_nan dy) eqn:EN.
